@@ -435,6 +435,7 @@ def gen_plan(seed, tier):
     plan['mode'] = rng.choice(['solve', 'solve', 'manual', 'manual_collapsed'])
     plan['max_rounds'] = rng.randint(2, 8)
     plan['detectors'] = gen_detectors(rng, dim, plan['cost'], rng.randint(1, 4))
+    plan['save'] = plan['mode'] == 'solve' and plan['limits'][0] <= 40 and rng.random() < 0.25     # a restart file every generation; restored afterwards
     plan['seed'] = seed
     return plan
 
@@ -935,6 +936,8 @@ def run_plan(plan):
                     s.SetTermination(build_cond(plan['tree']))
                     s.SetEvaluationLimits(plan['limits'][0], plan['limits'][1])
                     orc.wrap(h)
+                    if plan.get('save'):
+                        s.SetSaveFrequency(1, run.fs.path('c11-restart.pkl'))
                     if plan['mode'] == 'solve':
                         r = h.do({'op': 'solve'})
                         if r.get('exc'):
@@ -967,6 +970,8 @@ def run_plan(plan):
                             h.violate(ID, 'solve_did_not_return', detail='manual collapse loop still running after 400 Step calls')
             except env.SimHang as e:
                 h.violate(ID, 'solve_did_not_return', detail=str(e), collapses=orc.n_applied)
+            if plan.get('save') and plan['kind'] == 'solver':
+                restored_state(h, orc, run)
             viol = h.finish()
             final = h.snap()
     finally:
@@ -976,6 +981,51 @@ def run_plan(plan):
     return {'violations': viol, 'digest': hashlib.sha1(tr.encode()).hexdigest(), 'probes': run.probes, 'fired': run.fired,
             'sim_s': 0.0, 'nontrivial': bool(orc.fired), 'stats': {'cost_calls': len(run.evals), 'steps': h.steps_executed,
             'collapses_applied': orc.n_applied, 'relations': len(orc.relations), 'seam_crossings': run.ncross}}
+
+
+def restored_state(h, orc, run):
+    """a new process restores the last restart file of the run: what it reports as collapsed must not be something its own
+    termination already masks, and asking it to apply collapses must work"""
+    import os
+    from mystic.solvers import LoadSolver
+    path = run.fs.path('c11-restart.pkl')
+    if not os.path.exists(path): return
+    run.observing = True
+    try:
+        try:
+            s2 = LoadSolver(path)
+        except Exception as e:
+            h.violate(ID, 'solve_raised', detail='LoadSolver of the last restart file raised %s: %s' % (type(e).__name__, str(e)[:160]),
+                      exc=type(e).__name__, collapses=orc.n_applied, restored=True)
+            return
+        run.probe('c11.restored_from_restart_file')
+        try:
+            rep = s2.Collapsed(info=True)
+        except Exception as e:
+            h.violate(ID, 'solve_raised', detail='Collapsed(info=True) on the restored solver raised %s: %s' % (type(e).__name__, str(e)[:160]),
+                      exc=type(e).__name__, collapses=orc.n_applied, restored=True)
+            return
+        import mystic.termination as mt
+        live = {}
+        for leaf in leaves(s2._termination):
+            name, kw = parse_doc(leaf.__doc__)
+            live[(name, nomask(kw))] = kw.get('mask')
+        for doc, col in (rep or {}).items():
+            name, kw = parse_doc(doc)
+            kind = DETECTOR[name][1]
+            if kind == 'cost': continue
+            cur = live.get((name, nomask(kw)), kw.get('mask'))
+            again = items(kind, col) & items(kind, cur)
+            if again:
+                h.violate(ID, 'collapse_reported_twice', detail='the solver restored from the last restart file reports %r for %s although its '
+                          'termination already masks %r' % (sorted(again), doc[:100], cur), cond=name, restored=True)
+        try:
+            s2.Collapse()
+        except Exception as e:
+            h.violate(ID, 'solve_raised', detail='Collapse() on the restored solver raised %s: %s' % (type(e).__name__, str(e)[:160]),
+                      exc=type(e).__name__, collapses=orc.n_applied, restored=True)
+    finally:
+        run.observing = False
 
 
 def simplify(plan):
